@@ -350,3 +350,62 @@ Example C12_only_fdt_example :
      [OutRead RNothing; OutRead (RFdt 1 false); OutRemove false; OutPublish true; OutRead (RFdt 2 false);
       OutRead RNothing; OutRead (RFdt 2 false); OutAdd false; OutRead RNothing].
 Proof. vm_compute. repeat split; reflexivity. Qed.
+
+From FluteV Require Import Proofs.C12CloseFlag.
+(* ===== block: C12CloseFlag ===== *)
+(* C08/C12, the close-object flag over every operation history: an object packet carries the flag
+   only if the object was removed before, or the object is empty (its lone packet), or the object
+   has no carousel and the packet is the last one of its last transfer (packets on the wire =
+   max_transfer_count x packets per transfer).  Proved for every run of the model under the premises
+   of C12_lifecycle_full, unchanged (accepted adds: pairwise distinct TOIs, max_transfer_count >= 1
+   unless carousel); no counterexample was found, none of the premises had to be extended.
+   A carousel object with max_transfer_count = 0 is inside the domain and is never flagged. *)
+Theorem C12_close_flag_full :
+  forall fdt_npk fdt_ok divf ops full dur car sid queues,
+    let tr := model_trace fdt_npk fdt_ok divf (init_st full dur car sid queues) ops in
+    c12_adds_okb (fun _ => true) [] (map fst tr) = true ->
+    P_C12_close_flag (map fst tr) = true.
+Proof. exact C12_close_flag_holds. Qed.
+Print Assumptions C12_close_flag_full.
+
+Theorem C12_close_flag_full_ops :
+  forall fdt_npk fdt_ok divf ops full dur car sid queues,
+    ops_adds_okb (fun _ => true) [] ops = true ->
+    P_C12_close_flag (map fst (model_trace fdt_npk fdt_ok divf (init_st full dur car sid queues) ops)) = true.
+Proof. exact C12_close_flag_holds_ops. Qed.
+Print Assumptions C12_close_flag_full_ops.
+
+Definition c12_objpk (tr : list tev) : list (N * bool) :=
+  flat_map (fun e => match e with TRead _ (RObj t c) _ _ => [(t, c)] | _ => [] end) tr.
+
+(* non-vacuity: TOI 1 = 2 packets x 2 transfers, no carousel: the flag on its 4th packet only;
+   TOI 2 = carousel object with max_transfer_count 0 (1 packet per turn): never flagged, also not on
+   the turns after TOI 1 is gone; TOI 3 = 3 packets, allow_stop, removed after its first packet: the
+   one packet sent after the removal is flagged.  The premises hold and the monitor accepts. *)
+Example C12_close_flag_example :
+  let odA := mk_odesc 1 0 2 2 2 CNone TNone false None [] in
+  let odC := mk_odesc 2 0 1 1 0 (CDelay 0) TNone false None [] in
+  let odR := mk_odesc 3 0 3 3 1 CNone TNone true None [] in
+  let ops := [OpAdd odA None true; OpAdd odC None true; OpPublish 0; OpRead 0; OpRead 0; OpRead 0;
+              OpRead 1; OpRead 1; OpRead 2; OpRead 2; OpRead 3; OpRead 4; OpRead 4;
+              OpAdd odR None true; OpPublish 5; OpRead 5; OpRead 5; OpRead 5; OpRemove 3; OpRead 5;
+              OpRead 6; OpRead 6; OpRead 7] in
+  c12_objpk (map fst (c12_ex_run ops)) =
+    [(1, false); (1, false); (2, false); (1, false); (1, true); (2, false); (2, false);
+     (2, false); (3, false); (3, true); (2, false); (2, false)]
+  /\ P_C12_close_flag (map fst (c12_ex_run ops)) = true
+  /\ ops_adds_okb (fun _ => true) [] ops = true.
+Proof. vm_compute. repeat split; reflexivity. Qed.
+
+(* the monitor is not trivially true: a flag in the middle of a transfer, a flag at the end of a
+   transfer that is not the last one, and a flag on a carousel object are all rejected *)
+Example C12_close_flag_monitor_rejects :
+  let odA := mk_odesc 1 0 2 2 2 CNone TNone false None [] in
+  let odC := mk_odesc 2 0 1 1 0 (CDelay 0) TNone false None [] in
+  P_C12_close_flag [TAdd odA None true; TRead 0 (RObj 1 true) 0 None] = false
+  /\ P_C12_close_flag [TAdd odA None true; TRead 0 (RObj 1 false) 0 None; TRead 0 (RObj 1 true) 0 None] = false
+  /\ P_C12_close_flag [TAdd odC None true; TRead 0 (RObj 2 true) 0 None] = false
+  /\ P_C12_close_flag [TAdd odA None true; TRead 0 (RObj 1 false) 0 None; TRead 0 (RObj 1 false) 0 None;
+                       TRead 0 (RObj 1 false) 0 None; TRead 0 (RObj 1 true) 0 None] = true.
+Proof. vm_compute. repeat split; reflexivity. Qed.
+(* ===== end block: C12CloseFlag ===== *)
